@@ -40,6 +40,7 @@ def run(rep, tier):
     point_kernel(rep, F)
     small_pair_tables(rep, F)
     contains_point_table(rep, F)
+    shape_pair_tables(rep, F)
     # the legacy EuclideanDistance / EuclideanLength traits are twins of Euclidean.distance / length (rule shared with C16)
     from . import c16
     c16.legacy_twins(rep, F, "R7.11", ("Euclidean",))
@@ -537,3 +538,179 @@ def contains_point_table(rep, F, rule="R7.9"):
                             ([(v["x"], v["y"]) for v in vs], (q["x"], q["y"]), got, want), where=fn.loc())
                     return
     rep.ok(rule, "contains-point[%d witnesses]" % k)
+
+
+def shape_pair_tables(rep, F, rule="R7.13"):
+    """Euclidean distance of a Point to a LineString (3 coordinates) and to a Polygon (a triangle with a triangular hole; rings unrolled
+    exactly) and of a Line to a LineString, with `intersects` answered by exact reference geometry: the value of the extracted path table on every witness (points and
+    segments outside, inside the hole, inside the body, on the boundary, opposite the middle of an edge, beyond a corner) is the exact
+    minimum distance - to the SEGMENTS of every ring (not only to their vertices, not only to the exterior), zero in the closed region."""
+    from ..numeval import NumEval, seg_dist, seg_seg_dist, segs_intersect
+    from ..evalterm import NoModel
+    from .c02_kernels import _pip
+    import math
+    rep.rule(rule, "Euclidean distance Point -> LineString(3) / Polygon(square with a square hole) and Line -> LineString(3) / the same Polygon (segment kernels compositional: R7.4 / R7.8 / R7.9), every witness of the catalogue: the path table gives the exact minimum distance to the segments of every ring, zero in the closed region")
+    GTp = "geo_types::geometry::"
+
+    def vec(items):
+        return ("call", "vec!", (("array", tuple(items)),))
+    O = lambda n: ("opaque", n)
+    ls_t = lambda names: ("adt", GTp + "line_string::LineString", "LineString", (vec([O(n) for n in names]),))
+    EXT = [(0, 0), (6, 0), (6, 6), (0, 6), (0, 0)]
+    HOLE = [(2, 2), (2, 4), (4, 4), (4, 2), (2, 2)]
+    LS3 = [(0, 0), (4, 0), (4, 3)]
+    env_poly = {}
+    for i, c in enumerate(EXT):
+        env_poly[O("e%d" % i)] = {"x": float(c[0]), "y": float(c[1])}
+    for i, c in enumerate(HOLE):
+        env_poly[O("h%d" % i)] = {"x": float(c[0]), "y": float(c[1])}
+    env_ls = {O("l%d" % i): {"x": float(c[0]), "y": float(c[1])} for i, c in enumerate(LS3)}
+    poly_t = ("adt", GTp + "polygon::Polygon", "Polygon", (ls_t(["e%d" % i for i in range(5)]), vec([ls_t(["h%d" % i for i in range(5)])])))
+    ls3_t = ls_t(["l0", "l1", "l2"])
+    D = lambda c: {"x": float(c[0]), "y": float(c[1])}
+    pts = [(-2, 3), (3, -2), (8, 8), (3, 3), (3, 2.5), (1, 1), (0, 3), (2, 3), (6, 6), (5, 3), (7, 3), (3, 8), (-1, -1), (2.5, 3.5), (14, -1), (4, 4), (5, 5), (3.5, 3.5), (1, 8)]
+    segs = [((-3, 1), (-1, 5)), ((2.5, 2.5), (3.5, 3.5)), ((1, 1), (1, 5)), ((-2, 3), (8, 3)), ((7, -1), (9, 2)), ((3, 3), (3, 3.5)), ((-1, 7), (7, 7)), ((3, -3), (3, -1)), ((8, 7), (7, 8))]
+
+    def rings_of(v):
+        out = []
+        if isinstance(v, dict) and "exterior" in v:
+            out.append(v["exterior"]["0"])
+            out += [r["0"] for r in v["interiors"]]
+        elif isinstance(v, dict) and "0" in v and isinstance(v["0"], list):
+            out.append(v["0"])
+        return out
+
+    def in_poly(v, p):
+        rs = rings_of(v)
+        e = _pip(rs[0], p)
+        if e != "Inside":
+            return e == "OnBoundary"
+        return not any(_pip(r, p) == "Inside" for r in rs[1:])
+
+    def geom_kind(v):
+        if isinstance(v, dict) and "exterior" in v:
+            return "poly"
+        if isinstance(v, dict) and "start" in v:
+            return "line"
+        if isinstance(v, dict) and "0" in v and isinstance(v["0"], list):
+            return "ls"
+        return "pt"
+
+    def pt_of(v):
+        while isinstance(v, dict) and "0" in v and "x" not in v:
+            v = v["0"]
+        return v
+
+    def ref_intersects(a, b):
+        ka, kb = geom_kind(a), geom_kind(b)
+        if ka in ("poly", "ls") and kb in ("pt", "line"):
+            a, b, ka, kb = b, a, kb, ka
+        if ka == "pt":
+            p = pt_of(a)
+            if kb == "poly":
+                return in_poly(b, p)
+            if kb == "ls":
+                c = b["0"]
+                return any(seg_dist(p, c[i], c[i + 1]) == 0 for i in range(len(c) - 1))
+            if kb == "line":
+                return seg_dist(p, b["start"], b["end"]) == 0
+            return p == pt_of(b)
+        if ka == "line":
+            s, e = a["start"], a["end"]
+            if kb == "line":
+                return segs_intersect(s, e, b["start"], b["end"])
+            rs = rings_of(b)
+            if any(segs_intersect(s, e, r[i], r[i + 1]) for r in rs for i in range(len(r) - 1)):
+                return True
+            return kb == "poly" and in_poly(b, s)
+        raise NoModel("intersects(%s, %s)" % (ka, kb))
+
+    class Ev(NumEval):
+        def call(self, t):
+            m = t[1].rsplit("::", 1)[-1]
+            if t[1].endswith("::intersects") and len(t[2]) == 2:
+                return ref_intersects(self.ev(t[2][0]), self.ev(t[2][1]))
+            # the segment kernels are symbols here: each has its own table (R7.4 clamp, R7.8 small pairs, R7.9 contains-point)
+            if m == "line_segment_distance" and len(t[2]) == 3:
+                return seg_dist(pt_of(self.ev(t[2][0])), pt_of(self.ev(t[2][1])), pt_of(self.ev(t[2][2])))
+            if m == "point_line_euclidean_distance" and len(t[2]) == 2:
+                l = self.ev(t[2][1])
+                return seg_dist(pt_of(self.ev(t[2][0])), l["start"], l["end"])
+            if m == "line_string_contains_point" and len(t[2]) == 2:
+                c = self.ev(t[2][0])["0"]
+                q = pt_of(self.ev(t[2][1]))
+                return any(seg_dist(q, c[i], c[i + 1]) == 0 for i in range(len(c) - 1))
+            if m == "distance" and len(t[2]) == 3:
+                a, b = self.ev(t[2][1]), self.ev(t[2][2])
+                if geom_kind(a) == "line" and geom_kind(b) == "line":
+                    return seg_seg_dist(a["start"], a["end"], b["start"], b["end"])
+            return NumEval.call(self, t)
+
+    def exact(a_kind, a, target_rings, poly):
+        if a_kind == "pt":
+            if poly is not None and in_poly(poly, a):
+                return 0.0
+            return min(seg_dist(a, r[i], r[i + 1]) for r in target_rings for i in range(len(r) - 1))
+        s, e = a
+        if poly is not None and ref_intersects({"start": s, "end": e}, poly):
+            return 0.0
+        return min(seg_seg_dist(s, e, r[i], r[i + 1]) for r in target_rings for i in range(len(r) - 1))
+    cases = [
+        ("Point-LineString", r"&%spoint::Point<F>$" % GTp, r"&%sline_string::LineString<F>$" % GTp, "pt", ls3_t, env_ls, None),
+        ("Point-Polygon", r"&%spoint::Point<F>$" % GTp, r"&%spolygon::Polygon<F>$" % GTp, "pt", poly_t, env_poly, True),
+        ("Line-LineString", r"&%sline::Line<F>$" % GTp, r"&%sline_string::LineString<F>$" % GTp, "line", ls3_t, env_ls, None),
+        ("Line-Polygon", r"&%sline::Line<F>$" % GTp, r"&%spolygon::Polygon<F>$" % GTp, "line", poly_t, env_poly, True),
+    ]
+    n_ok = 0
+    for key, ra, rb, akind, shape_t, env0, is_poly in cases:
+        fn = None
+        for im in F.impls_of(DIST):
+            if im["self_ty"].endswith("euclidean::Euclidean") and len(im["trait_args"]) == 4 and re.search(ra, im["trait_args"][2]) and re.search(rb, im["trait_args"][3]):
+                fn = F.impl_fn(im, "distance")
+        if fn is None:
+            rep.bad(rule, "shape-pair:%s:anchor" % key, "no Euclidean Distance impl for %s" % key)
+            continue
+        a_t = ("&", ("adt", GTp + "point::Point", "Point", (O("q"),))) if akind == "pt" else ("&", ("adt", GTp + "line::Line", "Line", (O("qs"), O("qe"))))
+        try:
+            ex = Symex(F, inline_crates=("geo", "geo_types"), max_depth=14, concrete_iters=True, loop_bound=12, max_paths=60000, budget_s=90,
+                       no_inline=[r"Intersects<.*>>::intersects$", r"::intersects$", r"private_utils::line_segment_distance$", r"private_utils::point_line_euclidean_distance$",
+                                  r"private_utils::line_string_contains_point$", r"Distance<F, &geo_types::geometry::line::Line<F>, &geo_types::geometry::line::Line<F>>>::distance$"])
+            ex.resolve_by_receiver = True
+            paths = [p for p in ex.run(fn, args=[("arg", 1), a_t, ("&", shape_t)]) if p.kind != "cut"]
+        except Unanalysable as e:
+            rep.bad(rule, "shape-pair:%s:unanalysable" % key, str(e), where=fn.loc())
+            continue
+        rings = [[D(c) for c in (EXT if is_poly else LS3)]] + ([[D(c) for c in HOLE]] if is_poly else [])
+        poly_v = {"exterior": {"0": rings[0]}, "interiors": [{"0": rings[1]}]} if is_poly else None
+        bad = None
+        k = 0
+        for w in (pts if akind == "pt" else segs):
+            env = dict(env0)
+            if akind == "pt":
+                env[O("q")] = D(w)
+                a_val = D(w)
+            else:
+                env[O("qs")], env[O("qe")] = D(w[0]), D(w[1])
+                a_val = (D(w[0]), D(w[1]))
+            ev = Ev(F, env)
+            try:
+                hit = ev.select_path(paths)
+                if len(hit) != 1 or hit[0].kind != "ret":
+                    bad = "witness %s selects %s" % (w, [h.kind for h in hit])
+                    break
+                got = float(ev.ev(hit[0].ret))
+            except (NoModel, TypeError, KeyError, ValueError) as e:
+                bad = "not evaluable on %s: %s" % (w, e)
+                break
+            want = exact(akind, a_val, rings, poly_v)
+            k += 1
+            if not (abs(got - want) <= 1e-9):
+                bad = "distance(%s %s, %s) evaluates to %.6g, the exact minimum distance is %.6g" % (
+                    "POINT" if akind == "pt" else "LINE", w, "POLYGON(%s, hole %s)" % (EXT, HOLE) if is_poly else "LINESTRING%s" % (LS3,), got, want)
+                break
+        if bad:
+            rep.bad(rule, "shape-pair:%s" % key, "%s: %s" % (key, bad), where=fn.loc())
+        else:
+            n_ok += 1
+            rep.ok(rule, "shape-pair:%s[%d witnesses, %d paths]" % (key, k, len(paths)))
+    rep.floor(rule, "shape pair tables", n_ok, 4)
